@@ -56,6 +56,108 @@ def fwd_options(method, n):
     return {}, 0.0
 
 
+# ------------------------------------------------------------------ one tensor object at two different places of an operator
+#
+# "shape" of the sharing (t = the shared tensor object, K a constant matrix that is not a parameter):
+#   add2      (op1(t) + op2(t)) * 0.5                      matrix t          two distinct component objects, names a.a.Mat / a.b.Mat
+#   subscale  2 * op1(t) - op2(t)                          matrix t
+#   addK      op1(t) + opK(t),  opK's matrix = K t         matrix (I + K) t  (I + K = 1.5 * unitary, t = (I + K)^-1 A)
+#   matmul    op1(t).matmul(opK(t))                        matrix t K t      (K = A^-1 detached, t = A: non-linear in t)
+#   own / own_list / own_dict   caller-written class holding t as self.w and as self.sub.w / self.lst[1] / self.dct['k'],
+#                               both listed by _getparamnames             matrix 0.5 (w + w2)
+#   own_quad  the same class (second place self.sub.w)     matrix w K w2     (K = A^-1 detached)
+# op1 is any leaf kind of C01 (dense included), op2/opK a user-class leaf (two dense operands would be folded into one matrix).
+SHARED_A = ("add2", "subscale", "addK", "matmul", "own", "own_list", "own_dict", "own_quad")
+SHARED_M = ("add2", "subscale", "own", "own_list", "own_dict")          # M has to stay (flagged) Hermitian
+SECOND_PLACE = {"own": "sub.w", "own_quad": "sub.w", "own_list": "lst[1]", "own_dict": "dct['k']"}
+
+
+class _Holder(object):
+    pass
+
+
+def _own_class(name, methods, counter, names, matfn):
+    """fresh caller-written LinearOperator class whose matrix is matfn(self) and whose parameter names are `names`"""
+    import xitorch
+
+    def tick(k):
+        counter[k] = counter.get(k, 0) + 1
+
+    def _mv(self, x):
+        tick("mv")
+        return torch.matmul(matfn(self), x.unsqueeze(-1)).squeeze(-1)
+
+    def _rmv(self, x):
+        tick("rmv")
+        return torch.matmul(R.H(matfn(self)), x.unsqueeze(-1)).squeeze(-1)
+
+    def _mm(self, x):
+        tick("mm")
+        return torch.matmul(matfn(self), x)
+
+    def _rmm(self, x):
+        tick("rmm")
+        return torch.matmul(R.H(matfn(self)), x)
+
+    def _fullmatrix(self):
+        tick("fullmatrix")
+        return matfn(self)
+
+    def _getparamnames(self, prefix=""):
+        return [prefix + nm for nm in names]
+
+    def __init__(self, shape, dtype, is_hermitian, **attrs):
+        xitorch.LinearOperator.__init__(self, shape=shape, is_hermitian=is_hermitian, dtype=dtype, device=torch.device("cpu"),
+                                        _suppress_hermit_warning=True)
+        for k, v in attrs.items():
+            setattr(self, k, v)
+    impl = {"_mv": _mv, "_rmv": _rmv, "_mm": _mm, "_rmm": _rmm, "_fullmatrix": _fullmatrix}
+    body = {m: impl[m] for m in methods}
+    body["_getparamnames"] = _getparamnames
+    body["__init__"] = __init__
+    return type(name, (xitorch.LinearOperator,), body)
+
+
+def build_shared(shape, t, K, leaf1, leaf2, herm_flag, swapnames, counter):
+    """operator holding the tensor object `t` at two different places; returns (operator, its dense matrix built from t)"""
+    if shape in ("add2", "subscale", "addK", "matmul"):
+        flag = bool(herm_flag) and shape in ("add2", "subscale")
+        op1 = R.make_leaf(leaf1, t, flag, counter)
+        if shape in ("addK", "matmul"):
+            cls = _own_class("SK_" + leaf2, R.METHODSETS[leaf2], counter, ["Mat"], lambda s: torch.matmul(s.K, s.Mat))
+            op2 = cls(tuple(t.shape), t.dtype, False, Mat=t, K=K)
+        else:
+            op2 = R.make_leaf(leaf2, t, flag, counter)
+        if shape == "add2":
+            return ((op2 + op1) if swapnames else (op1 + op2)) * 0.5, t
+        if shape == "subscale":
+            return 2 * op1 - op2, t
+        if shape == "addK":
+            return (op2 + op1) if swapnames else (op1 + op2), t + torch.matmul(K, t)
+        return op1.matmul(op2), torch.matmul(t, torch.matmul(K, t))
+    second = SECOND_PLACE[shape]
+    if second == "sub.w":
+        def w2(s):
+            return s.sub.w
+        sub = _Holder()
+        sub.w = t
+        attrs = {"sub": sub}
+    elif second == "lst[1]":
+        def w2(s):
+            return s.lst[1]
+        attrs = {"lst": [torch.zeros((1,), dtype=t.dtype), t]}
+    else:
+        def w2(s):
+            return s.dct["k"]
+        attrs = {"dct": {"k": t}}
+    names = [second, "w"] if swapnames else ["w", second]
+    if shape == "own_quad":
+        cls = _own_class("SQ_" + leaf2, R.METHODSETS[leaf2], counter, names, lambda s: torch.matmul(s.w, torch.matmul(s.K, w2(s))))
+        return cls(tuple(t.shape), t.dtype, False, w=t, K=K, **attrs), torch.matmul(t, torch.matmul(K, t))
+    cls = _own_class("SO_" + leaf2, R.METHODSETS[leaf2], counter, names, lambda s: 0.5 * (s.w + w2(s)))
+    return cls(tuple(t.shape), t.dtype, bool(herm_flag), w=t, **attrs), t
+
+
 def run_case(case):
     from xitorch.linalg import solve
     import xitorch
@@ -72,7 +174,7 @@ def run_case(case):
         A = 0.5 * (PA + R.H(PA))
     else:
         PA = A0.clone().requires_grad_(req[0])
-        A = PA * 1.0
+        A = PA if (case.get("shared") or {}).get("direct") else PA * 1.0      # direct: the leaf itself is what the operator holds
     PB = gen.randn(g, (*case["bB"], n, ncols), dt)
     if case["zero"] == "all":
         PB = PB * 0
@@ -105,15 +207,32 @@ def run_case(case):
     kind = case["kind"]
     if kind == "jac" and (dt.is_complex or case["bA"]):
         kind = "mv_rmv"
+    if case.get("shared") and case["shared"]["A"]:
+        kind = "sh_" + case["shared"]["A"]
     batchclass = "b%d%d%d%d" % (len(case["bA"]), len(case["bB"]), len(case["bE"]) if PE is not None else 0, len(case["bM"]) if PM is not None else 0)
     labels = ["method=" + method, "bck=" + bck, "emode=" + em, "kind=" + kind, "dtype=" + case["dtype"], "spec=" + case["spec"],
               "batch=" + batchclass, "order=%d" % case["order"], "zero=" + case["zero"], "extra=%s" % case["extra"], "nonlin=%s" % (bool(case.get("nonlin")) and case["kind"] in R.METHODSETS), "reuse=%s" % bool(case.get("reuse"))]
+    if case.get("shared"):
+        labels += ["sharedA=%s" % case["shared"]["A"], "sharedM=%s" % (case["shared"]["M"] if M is not None else None),
+                   "direct=%s" % bool(case["shared"].get("direct") and not herm)]
     if not leaves:
         return discard("nothing_requires_grad", labels)
 
     counter = {}
-    nonlin = bool(case.get("nonlin")) and kind in R.METHODSETS
-    if nonlin:
+    sh = case.get("shared")
+    nonlin = bool(case.get("nonlin")) and kind in R.METHODSETS and not sh
+    if sh and sh["A"]:
+        shape = sh["A"]
+        K = None
+        t = A
+        if shape == "addK":
+            P = R.rand_unitary(g, (), n, dt).to(dt) * 1.5
+            K = P - torch.eye(n, dtype=dt)
+            t = torch.matmul(R.H(P) / 2.25, A)              # (I + K)^-1 A
+        elif shape in ("matmul", "own_quad"):
+            K = torch.linalg.inv(A.detach())
+        Aop, A = xt_call(build_shared, shape, t, K, sh["leaf1"], sh["leaf2"], herm and case["hflag"], sh["swap"], counter, _where="construct")
+    elif nonlin:
         # operator non-linear in its own scalar parameter: matrix = A * exp(s); s real so that Hermitian stays Hermitian
         PS = torch.tensor(0.1, dtype=torch.float64, requires_grad=True)
         Aop = xt_call(R.make_nonlin_leaf, kind, A, PS, herm and case["hflag"], counter, _where="construct")
@@ -123,7 +242,7 @@ def run_case(case):
     else:
         Aop = xt_call(R.make_operator, kind, A, herm and case["hflag"], g, counter, case["leaf"], _where="construct")
     extra = None
-    if case["extra"] and kind in ("mv", "mv_rmv", "mv_mm", "all"):
+    if case["extra"] and kind in ("mv", "mv_rmv", "mv_mm", "all") and not (sh and sh["A"]):
         # a parameter the operator lists but never uses
         extra = torch.full((2,), 0.5, dtype=dt, requires_grad=True)
         Aop.extra = extra
@@ -131,7 +250,9 @@ def run_case(case):
         _old = cls._getparamnames
         cls._getparamnames = lambda self, prefix="": _old(self, prefix) + [prefix + "extra"]
     Mop = None
-    if M is not None:
+    if M is not None and sh and sh["M"]:
+        Mop, M = xt_call(build_shared, sh["M"], M, None, sh["mleaf1"], sh["mleaf2"], True, sh["swap"], counter, _where="construct")
+    elif M is not None:
         Mop = xt_call(R.make_leaf, case["mkind"], M, True, counter, _where="construct")
     fopts, tf = fwd_options(method, n)
     if bck == "default":
@@ -259,5 +380,34 @@ def case_st(draw, tier="quick"):
     }
 
 
+@st.composite
+def shared_st(draw, tier="quick"):
+    """one tensor object held at two different places of A and/or M (see build_shared); the gradient w.r.t. the matrix leaf is
+    always requested and the forward method is mostly one that goes through the implicit backward"""
+    case = draw(case_st(tier))
+    case["n"] = max(2, case["n"])
+    case["req"][0] = True
+    case["zero"], case["extra"], case["nonlin"] = "none", False, False
+    where = draw(st.sampled_from(["A", "A", "A", "M", "AM"]))
+    if where in ("M", "AM"):
+        case["emode"] = "EM"
+        case["req"][3] = True
+    if draw(st.integers(0, 7)) != 0 and case["method"] == "exactsolve":
+        case["method"] = "custom_exactsolve"
+    if draw(st.integers(0, 2)) != 0:            # gmres mostly warns (discarded) once E M shifts the few distinct eigenvalues apart
+        case["method"] = "bicgstab" if case["method"] == "gmres" else case["method"]
+        case["bck"] = "bicgstab" if case["bck"] == "gmres" else case["bck"]
+    shA = draw(st.sampled_from(SHARED_A)) if where in ("A", "AM") else None
+    nondense = ["mv", "mv_rmv", "mv_mm", "all"]
+    case["shared"] = {
+        "A": shA, "M": draw(st.sampled_from(SHARED_M)) if where in ("M", "AM") else None,
+        "leaf1": draw(st.sampled_from(nondense if shA == "subscale" else ["dense"] + nondense)), "leaf2": draw(st.sampled_from(nondense)),
+        "mleaf1": draw(st.sampled_from(nondense)), "mleaf2": draw(st.sampled_from(nondense)),
+        "swap": draw(st.booleans()), "direct": draw(st.booleans()),
+    }
+    return case
+
+
 def tasks(tier):
-    return [Task("solvegrad", strategy=case_st(tier), run=run_case, examples={"quick": 1600, "thorough": 24000})]
+    return [Task("solvegrad", strategy=case_st(tier), run=run_case, examples={"quick": 1600, "thorough": 24000}),
+            Task("sharedparam", strategy=shared_st(tier), run=run_case, examples={"quick": 500, "thorough": 6000})]
